@@ -196,7 +196,18 @@ fn get_factor(
                 co2: vv[2],
             }
         })
-        .or_else(|| components.get_meta_rennren(meta));
+        .or_else(|| {
+            // Datos desde metadatos: un valor presente pero incorrecto es un error, como en CTE_KEXP y CTE_AREAREF
+            components.get_meta(meta).map(|value| {
+                value.parse::<RenNrenCo2>().unwrap_or_else(|_| {
+                    eprintln!(
+                        "ERROR: factor de paso incorrecto en metadatos ({}): \"{}\"",
+                        meta, value
+                    );
+                    exit(exitcode::DATAERR);
+                })
+            })
+        });
     if let Some(factor) = factor {
         components.set_meta(
             meta,
